@@ -126,6 +126,13 @@ func (w *World) put(p string, dir bool, data []byte) {
 // calls). They are not I/O calls of the code under test.
 func (w *World) Put(p string, dir bool, data []byte) { w.put(p, dir, data) }
 
+// PutLink makes p a symbolic link to target (replacing whatever p was).
+func (w *World) PutLink(p, target string) {
+	p = filepath.Clean(p)
+	w.mkparents(p)
+	w.fs[p] = &node{link: target, mode: fs.ModeSymlink | 0o777, mt: w.Epoch + int64(w.IOSeq)}
+}
+
 // PutKeepMtime rewrites a file but keeps its modification time.
 func (w *World) PutKeepMtime(p string, data []byte) {
 	old, ok := w.fs[filepath.Clean(p)]
